@@ -29,9 +29,9 @@ def handle (cmd : String) (args : List String) : Option String :=
     let ord := (order.splitOn ",").filter (· ≠ "") |>.map String.toNat!
     let row := findRow lib.toNat! k
     let sh := implShape m
-    let d := match row, sh with
-      | some cr, some s => describesB Gen.kindPrefixes cr m s ord
-      | _, _ => false
+    let d := match row with
+      | some cr => describesB Gen.kindPrefixes cr m ord
+      | none => false
     let fam := match classify (baseName k) with
       | some _ => "listed"
       | none => "outside"
